@@ -62,3 +62,10 @@ Definition hist_okb (h : list event) : bool := ids_functionalb h && forallb key_
 (** the full hypothesis on histories for C04/C05 *)
 Definition hist_ok5 (h : list event) : Prop := hist_ok h /\ Forall k5_wf h /\ eph_unref h.
 Definition hist_ok5b (h : list event) : bool := hist_okb h && forallb k5_wfb h && eph_unrefb h.
+
+(** everything the step theorems assume about a state and the event offered *)
+Definition step_hyps (s : cstate) (e : event) : Prop :=
+  Inv s /\ ids_functional (e :: retained s) /\
+  key_wf e /\ Forall key_wf (retained s) /\
+  k5_wf e /\ Forall k5_wf (retained s) /\
+  eph_ok (c_listing s) e /\ 1 <= c_cap s.
